@@ -2,6 +2,7 @@ import Uom.Props.C07
 import Uom.Props.C15
 import Uom.Proofs.BodyEq.Temp
 import Uom.Proofs.BodyEq.Mixed
+import Uom.Gen.Sigs
 /-!
 # C17 — feature flags change what compiles, never what a compiled program computes
 
@@ -123,6 +124,39 @@ theorem src_special_twins_agree (N : NumTy) (env : Env N) (x a b : N.S.V)
   · rw [BodyEq.kind_from_auto_eq, BodyEq.kind_from_noauto_eq, hE]; unfold kindFromOn kindFromOff; rw [hidE]
   · rw [BodyEq.hypot_auto_eq, BodyEq.inherent_Quantity_hypot_noauto_eq, hH, hidH]
   · rw [BodyEq.mul_add_auto_eq, BodyEq.mul_add_noauto_eq, hA, hB, hidA, hidB]
+
+/-- **mixed-base-unit operands are rejected without autoconvert**: in every `not_autoconvert!` /
+    `#[cfg(not(feature = "autoconvert"))]` twin regenerated from the source, `self` and the right
+    operand are typed with *the same* base-units parameter `U` (so operands in different base units do
+    not unify), while the `autoconvert!` twins have two independent parameters -/
+theorem src_noauto_twins_share_units :
+    (Gen.Sig.system_Add_for_Quantity_add_noauto.lhsU = some .U ∧ Gen.Sig.system_Add_for_Quantity_add_noauto.rhsU = some .U) ∧
+    (Gen.Sig.system_Sub_for_Quantity_sub_noauto.lhsU = some .U ∧ Gen.Sig.system_Sub_for_Quantity_sub_noauto.rhsU = some .U) ∧
+    (Gen.Sig.system_Rem_for_Quantity_rem_noauto.lhsU = some .U ∧ Gen.Sig.system_Rem_for_Quantity_rem_noauto.rhsU = some .U) ∧
+    (Gen.Sig.system_AddAssign_for_Quantity_add_assign_noauto.lhsU = some .U ∧ Gen.Sig.system_AddAssign_for_Quantity_add_assign_noauto.rhsU = some .U) ∧
+    (Gen.Sig.system_SubAssign_for_Quantity_sub_assign_noauto.lhsU = some .U ∧ Gen.Sig.system_SubAssign_for_Quantity_sub_assign_noauto.rhsU = some .U) ∧
+    (Gen.Sig.system_RemAssign_for_Quantity_rem_assign_noauto.lhsU = some .U ∧ Gen.Sig.system_RemAssign_for_Quantity_rem_assign_noauto.rhsU = some .U) ∧
+    (Gen.Sig.system_Mul_Quantity_for_Quantity_mul_noauto.lhsU = some .U ∧ Gen.Sig.system_Mul_Quantity_for_Quantity_mul_noauto.rhsU = some .U) ∧
+    (Gen.Sig.system_Div_Quantity_for_Quantity_div_noauto.lhsU = some .U ∧ Gen.Sig.system_Div_Quantity_for_Quantity_div_noauto.rhsU = some .U) ∧
+    (Gen.Sig.system_PartialEq_for_Quantity_eq_noauto.lhsU = some .U ∧ Gen.Sig.system_PartialEq_for_Quantity_eq_noauto.rhsU = some .U) ∧
+    (Gen.Sig.system_PartialOrd_for_Quantity_partial_cmp_noauto.lhsU = some .U ∧ Gen.Sig.system_PartialOrd_for_Quantity_partial_cmp_noauto.rhsU = some .U) ∧
+    (Gen.Sig.system_inherent_Quantity_hypot_noauto.lhsU = some .U ∧ Gen.Sig.system_inherent_Quantity_hypot_noauto.rhsU = some .U) ∧
+    (Gen.Sig.system_inherent_Quantity_mul_add_noauto.lhsU = some .U ∧ Gen.Sig.system_inherent_Quantity_mul_add_noauto.rhsU = some .U) ∧
+    (Gen.Sig.si_mod_From_Quantity_for_Quantity_from_noauto.lhsU = some .U ∧ Gen.Sig.si_mod_From_Quantity_for_Quantity_from_noauto.rhsU = some .U) ∧
+    (Gen.Sig.si_thermodynamic_temperature_Add_TemperatureInterval_for_ThermodynamicTemperature_add_noauto.lhsU = some .U ∧
+      Gen.Sig.si_thermodynamic_temperature_Add_TemperatureInterval_for_ThermodynamicTemperature_add_noauto.rhsU = some .U) ∧
+    (Gen.Sig.si_thermodynamic_temperature_Sub_TemperatureInterval_for_ThermodynamicTemperature_sub_noauto.lhsU = some .U ∧
+      Gen.Sig.si_thermodynamic_temperature_Sub_TemperatureInterval_for_ThermodynamicTemperature_sub_noauto.rhsU = some .U) ∧
+    (Gen.Sig.si_thermodynamic_temperature_AddAssign_TemperatureInterval_for_ThermodynamicTemperature_add_assign_noauto.lhsU = some .U ∧
+      Gen.Sig.si_thermodynamic_temperature_AddAssign_TemperatureInterval_for_ThermodynamicTemperature_add_assign_noauto.rhsU = some .U) ∧
+    (Gen.Sig.si_thermodynamic_temperature_SubAssign_TemperatureInterval_for_ThermodynamicTemperature_sub_assign_noauto.lhsU = some .U ∧
+      Gen.Sig.si_thermodynamic_temperature_SubAssign_TemperatureInterval_for_ThermodynamicTemperature_sub_assign_noauto.rhsU = some .U) ∧
+    (Gen.Sig.si_temperature_interval_Add_ThermodynamicTemperature_for_TemperatureInterval_add_noauto.lhsU = some .U ∧
+      Gen.Sig.si_temperature_interval_Add_ThermodynamicTemperature_for_TemperatureInterval_add_noauto.rhsU = some .U) ∧
+    -- … and the autoconvert twins have two
+    (Gen.Sig.system_Add_Quantity_for_Quantity_add_auto.lhsU = some .Ul ∧ Gen.Sig.system_Add_Quantity_for_Quantity_add_auto.rhsU = some .Ur) ∧
+    (Gen.Sig.si_mod_From_Quantity_for_Quantity_from_auto.lhsU = some .Ul ∧ Gen.Sig.si_mod_From_Quantity_for_Quantity_from_auto.rhsU = some .Ur) := by
+  decide
 
 end SourceTie
 
